@@ -6,7 +6,7 @@ From Coq Require Export List Arith NArith ZArith Lia Bool.
 Export ListNotations.
 Local Open Scope nat_scope.
 
-Definition byte := N.
+Notation byte := N (only parsing).
 
 Inductive err := BadArgument | BadValue | BadType | BadOperation | BadEncoding
                | MissingData | MissingBuffer | ERange | EInval.
